@@ -13,7 +13,7 @@ DEL = ('re', r'^tensor_store::TensorStore::delete$')
 
 def r19a(ctx, rep, cr, cg):
     rep.rule('R19a', 'chunk reference counts: the read-modify-write of `_refs` in increment_chunk_refs / decrement_chunk_refs, and the '
-                     'exists-then-increment-or-put in store_chunk, run under a lock held in the function or at every call site '
+                     'exists-then-increment-or-put in store_chunk and the collector\'s read-zero-then-delete in gc_cycle, run under a lock held in the function or at every call site '
                      '(callers to depth 3)')
     n = 0
     for name in ('tensor_blob::gc::increment_chunk_refs', 'tensor_blob::gc::decrement_chunk_refs'):
@@ -58,6 +58,27 @@ def r19a(ctx, rep, cr, cg):
             rep.violation('R19a', f, 'check-then-act', f.loc(ex[0].line),
                           'chunk existence is tested and then either its count is bumped or a fresh record with refs=1 is stored, with no '
                           'lock over the two steps: two writers of the same new chunk both store refs=1')
+    # the collector's test-then-delete
+    for fname, f in sorted(cr.fns.items()):
+        if A.parent_fn(fname) != 'tensor_blob::gc::GarbageCollector::gc_cycle':
+            continue
+        gets, dels = A.calls_to(f, GET), A.calls_to(f, DEL)
+        if not gets or not dels:
+            continue
+        n += 1
+        rep.analysed(f)
+        defs = A.Defs(f)
+        held = None
+        for c in gets + dels:
+            h = c05.held_at(f, defs, (c.bb, len(f.bbs[c.bb]['s'])))
+            held = h if held is None else (held & h)
+        if held:
+            rep.holds('R19a', f, 'refs test→delete', 'under %s' % sorted(held))
+        else:
+            rep.violation('R19a', f, 'test-then-delete', f.loc(gets[0].line),
+                          'the collector reads a chunk\'s `_refs`, finds zero and deletes the chunk with no lock over the two steps: a writer '
+                          'that deduplicates against the chunk in between bumps the count of a record that is then deleted, and its '
+                          'artifact can no longer be read')
     rep.floor('R19a', 'refcount update sites', n, 3)
 
 
@@ -190,9 +211,47 @@ def r19c(ctx, rep, cr, cg):
                 rep.violation('R19c', f, 'meta-delete-order', f.loc(meta_del[0].line), 'the artifact metadata can be deleted without first walking its chunk list')
 
 
+def r19d(ctx, rep, cr):
+    rep.rule('R19d', 'one reference per listed occurrence: every push onto BlobWriter.chunks (the list that becomes the artifact\'s `_chunks`, '
+                     'which delete_artifact walks decrementing once per entry) is unreachable from the function entry once the Ok-edges of '
+                     'increment_chunk_refs and of the TensorStore::put that writes a fresh `_refs` = 1 record are cut')
+    n = 0
+    for name, f in sorted(cr.fns.items()):
+        pushes = []
+        defs = None
+        for c in A.calls(f):
+            if not re.search(r'Vec::<T, A>::(push|insert|extend\w*)$', c.generic) or not c.args or c.args[0][0] == 'k':
+                continue
+            defs = defs or A.Defs(f)
+            fs = A.place_fields(c.args[0][1])
+            if not fs:
+                fs, _ = A.origin_fields(f, c.args[0][1][0], defs)
+            if any(x.endswith('BlobWriter.chunks') for x in fs):
+                pushes.append(c)
+        if not pushes:
+            continue
+        rep.analysed(f)
+        uses = A.Uses(f)
+        cut = set()
+        for c in A.calls_to(f, 'tensor_blob::gc::increment_chunk_refs') + A.calls_to(f, PUT):
+            cut |= A.call_outcome(f, c, uses).ok
+        R = A.reachable(f, [0], cut_edges=cut)
+        for c in pushes:
+            n += 1
+            if c.bb in R:
+                rep.violation('R19d', f, 'push-without-ref', f.loc(c.line),
+                              'a chunk key is appended to the artifact\'s chunk list on a path that neither incremented the chunk\'s `_refs` nor '
+                              'stored a fresh record: delete_artifact later decrements once per listed entry, so the count reaches zero while '
+                              'another artifact still lists the chunk and GC deletes it')
+            else:
+                rep.holds('R19d', f, 'push after increment-or-put', '')
+    rep.floor('R19d', 'pushes onto BlobWriter.chunks', n, 1)
+
+
 def run(ctx, rep):
     cr = ctx.crate('tensor_blob')
     cg = ctx.callgraph(['tensor_blob'])
     r19a(ctx, rep, cr, cg)
     r19b(ctx, rep, cr)
     r19c(ctx, rep, cr, cg)
+    r19d(ctx, rep, cr)
